@@ -16,7 +16,7 @@
 //! builder.set_int4(0, 100)?;
 //! ```
 
-use eyre::Result;
+use eyre::{ensure, Result};
 
 use crate::records::jsonb::JsonbBuilder;
 use crate::records::schema::Schema;
@@ -116,6 +116,11 @@ impl<'a> RecordBuilder<'a> {
         }
     }
 
+    /// Number of columns of the record this builder builds.
+    pub fn column_count(&self) -> usize {
+        self.schema.column_count()
+    }
+
     pub fn reset(&mut self) {
         for i in 0..self.schema.column_count() {
             let byte_idx = i / 8;
@@ -153,7 +158,20 @@ impl<'a> RecordBuilder<'a> {
         self.null_bitmap[byte_idx] &= !(1 << bit_idx);
     }
 
-    fn set_fixed_bytes(&mut self, col_idx: usize, bytes: &[u8]) {
+    fn set_fixed_bytes(&mut self, col_idx: usize, bytes: &[u8]) -> Result<()> {
+        // the column must exist, be a fixed-width column and be exactly as wide as the value:
+        // a value of another type (an integer for a VECTOR column, an 8-byte float for a REAL
+        // column) or a surplus value of a row is an error of the caller, not a reason to panic
+        let fits = self
+            .schema
+            .column(col_idx)
+            .is_some_and(|c| c.data_type.fixed_size() == Some(bytes.len()));
+        ensure!(
+            fits,
+            "value of {} bytes does not fit column {} of the record",
+            bytes.len(),
+            col_idx
+        );
         self.clear_null(col_idx);
         let offset = self.schema.fixed_offset(col_idx);
         self.fixed_data[offset..offset + bytes.len()].copy_from_slice(bytes);
@@ -161,26 +179,23 @@ impl<'a> RecordBuilder<'a> {
             offset,
             len: bytes.len(),
         };
+        Ok(())
     }
 
     pub fn set_bool(&mut self, col_idx: usize, value: bool) -> Result<()> {
-        self.set_fixed_bytes(col_idx, &[if value { 1 } else { 0 }]);
-        Ok(())
+        self.set_fixed_bytes(col_idx, &[if value { 1 } else { 0 }])
     }
 
     pub fn set_int2(&mut self, col_idx: usize, value: i16) -> Result<()> {
-        self.set_fixed_bytes(col_idx, &value.to_le_bytes());
-        Ok(())
+        self.set_fixed_bytes(col_idx, &value.to_le_bytes())
     }
 
     pub fn set_int4(&mut self, col_idx: usize, value: i32) -> Result<()> {
-        self.set_fixed_bytes(col_idx, &value.to_le_bytes());
-        Ok(())
+        self.set_fixed_bytes(col_idx, &value.to_le_bytes())
     }
 
     pub fn set_int8(&mut self, col_idx: usize, value: i64) -> Result<()> {
-        self.set_fixed_bytes(col_idx, &value.to_le_bytes());
-        Ok(())
+        self.set_fixed_bytes(col_idx, &value.to_le_bytes())
     }
 
     pub fn set_int_auto(&mut self, col_idx: usize, value: i64) -> Result<()> {
@@ -201,38 +216,31 @@ impl<'a> RecordBuilder<'a> {
     }
 
     pub fn set_float4(&mut self, col_idx: usize, value: f32) -> Result<()> {
-        self.set_fixed_bytes(col_idx, &value.to_le_bytes());
-        Ok(())
+        self.set_fixed_bytes(col_idx, &value.to_le_bytes())
     }
 
     pub fn set_float8(&mut self, col_idx: usize, value: f64) -> Result<()> {
-        self.set_fixed_bytes(col_idx, &value.to_le_bytes());
-        Ok(())
+        self.set_fixed_bytes(col_idx, &value.to_le_bytes())
     }
 
     pub fn set_date(&mut self, col_idx: usize, days: i32) -> Result<()> {
-        self.set_fixed_bytes(col_idx, &days.to_le_bytes());
-        Ok(())
+        self.set_fixed_bytes(col_idx, &days.to_le_bytes())
     }
 
     pub fn set_time(&mut self, col_idx: usize, micros: i64) -> Result<()> {
-        self.set_fixed_bytes(col_idx, &micros.to_le_bytes());
-        Ok(())
+        self.set_fixed_bytes(col_idx, &micros.to_le_bytes())
     }
 
     pub fn set_timestamp(&mut self, col_idx: usize, micros: i64) -> Result<()> {
-        self.set_fixed_bytes(col_idx, &micros.to_le_bytes());
-        Ok(())
+        self.set_fixed_bytes(col_idx, &micros.to_le_bytes())
     }
 
     pub fn set_uuid(&mut self, col_idx: usize, uuid: &[u8; 16]) -> Result<()> {
-        self.set_fixed_bytes(col_idx, uuid);
-        Ok(())
+        self.set_fixed_bytes(col_idx, uuid)
     }
 
     pub fn set_macaddr(&mut self, col_idx: usize, mac: &[u8; 6]) -> Result<()> {
-        self.set_fixed_bytes(col_idx, mac);
-        Ok(())
+        self.set_fixed_bytes(col_idx, mac)
     }
 
     pub fn set_timestamptz(&mut self, col_idx: usize, micros: i64, offset_secs: i32) -> Result<()> {
@@ -245,13 +253,11 @@ impl<'a> RecordBuilder<'a> {
     }
 
     pub fn set_inet4(&mut self, col_idx: usize, ip: &[u8; 4]) -> Result<()> {
-        self.set_fixed_bytes(col_idx, ip);
-        Ok(())
+        self.set_fixed_bytes(col_idx, ip)
     }
 
     pub fn set_inet6(&mut self, col_idx: usize, ip: &[u8; 16]) -> Result<()> {
-        self.set_fixed_bytes(col_idx, ip);
-        Ok(())
+        self.set_fixed_bytes(col_idx, ip)
     }
 
     pub fn set_vector(&mut self, col_idx: usize, vec: &[f32]) -> Result<()> {
